@@ -393,6 +393,17 @@ def run(ctx):
                 pb = solve_predicate(case, num, fp, Tsol, t)
                 if pb:
                     solve_bad.append((ci, pb, [float(x) for x in Tsol]))
+                # batch post-processing: the same path object goes on to another instant, then the stored solution
+                # is reported on for ITS time (results for a time depend on that time, not on the object's last solve)
+                t2 = case["times"][0] if t != case["times"][0] else case["times"][-1]
+                try:
+                    fp.solve(t2)
+                except RuntimeError:
+                    pass
+                pb = solve_predicate(case, num, fp, Tsol, t)
+                if pb:
+                    solve_bad.append((ci, ["after the path object solved another instant (t=%r): %s" % (t2, m) for m in pb],
+                                      [float(x) for x in Tsol]))
             except RuntimeError as e:
                 solve_fail += 1  # a loud failure is not a C14 matter (C17)
             # the same chain with an iteration budget too small to converge: either a loud failure, or -- if the
@@ -520,6 +531,12 @@ def replay(obj):
     print("chain: %s tubes per panel, fluid %s, t=%r" % ([len(p["weights"]) for p in case["panels"]], case["fluid"], case["t"]))
     print("returned T:", [float(x) for x in T])
     pb = solve_predicate(case, num, fp, T, case["t"])
+    t2 = case["times"][0] if case["t"] != case["times"][0] else case["times"][-1]
+    try:
+        fp.solve(t2)
+    except RuntimeError:
+        pass
+    pb = pb + ["after the path object solved another instant (t=%r): %s" % (t2, m) for m in solve_predicate(case, num, fp, T, case["t"])]
     for b in pb:
         print("  FAILS:", b)
     print("property holds on this input" if not pb else "property violated on this input")
